@@ -14,7 +14,7 @@ pub fn meta() -> Meta {
     Meta {
         rule: "for each of the 40 typed variants, boundary-biased field tuples v of the declarative reference schema: (parse) the reference encoding of a \
 single-record message must parse and the fields observed through public fields + raw-byte hooks must equal v; (write) build_bytes_vec of the library value \
-built from v must equal the reference encoding byte for byte (TYPE code included); (owned) the into_owned() copies of the parsed values must show the same fields and serialise to the same encoding. Structural rejections: LOC version != 0, SVCB keys equal/decreasing, \
+built from v must equal the reference encoding byte for byte (TYPE code included); (compressed) the output of the compressing writer must parse back to v; (owned) the into_owned() copies of the parsed values must show the same fields and serialise to the same encoding. Structural rejections: LOC version != 0, SVCB keys equal/decreasing, \
 NSEC windows equal/decreasing, inner lengths (char-string, option, SvcParam, bitmap) overrunning the RDATA (with and without bytes following in the \
 message) must be rejected. The repository's dnspython-produced vectors are decoded by both sides and compared. non-trivial = every tuple; distinct = \
 hash of (type, tuple)",
@@ -117,6 +117,24 @@ pub fn tuple_case(ctx: &mut Ctx, code: u16, idx: u64) {
         }
         Built::Err(e) => ctx.violation("write-rfc-encoding", &format!("write-failed:{}", tname), e, case()),
         Built::Panic(pn) => ctx.panic_violation("build_bytes_vec", &pn, case()),
+    }
+    // the compressing writer has its own per-type code: what it writes must carry the same field values (its byte layout
+    // may differ from the canonical encoding only by compression pointers)
+    match build(&lib, true) {
+        Built::Ok(out) => match parse_obs(&out) {
+            Ok(Ok(obs)) => {
+                if let Some(d) = diff_pkt(&p, &obs) {
+                    ctx.violation("write-rfc-encoding", &format!("compressed-writer-fields-differ:{}", tname), format!("fields read back from build_bytes_vec_compressed differ: {}", d),
+                        gen_case("tuple", idx, &p, json!({"reference_encoding": hex(&reference), "library_encoding": hex(&out)})));
+                } else {
+                    ctx.count("compressed_writer_fields_equal");
+                }
+            }
+            Ok(Err(e)) => ctx.violation("write-rfc-encoding", &format!("compressed-writer-output-rejected:{}", tname), e, case()),
+            Err(pn) => ctx.panic_violation("Packet::parse (compressed output)", &pn, case()),
+        },
+        Built::Err(e) => ctx.violation("write-rfc-encoding", &format!("compressed-write-failed:{}", tname), e, case()),
+        Built::Panic(pn) => ctx.panic_violation("build_bytes_vec_compressed", &pn, case()),
     }
 }
 
